@@ -232,6 +232,49 @@ def correspond(ctx, scale):
                 cases.append(f'shared_expire_check {qlit(TOL_E)} {qlit(TOL_S)} {c03.coq_cfg(cb, rcos)} {vqrec.coq_state(state0, 0)} {layers} {qmat(pool)} {vqrec.coq_state(final, 0)}')
                 meta.append(dict(kind='rvq-shared', kw=kw, step=t, head='all', mode='train'))
                 nontrivial += 1
+    # shared codebook + quantize DROPOUT + dead-code revival (round 11, seed C11-k): the layers a step drops receive nothing, so the pool the end-of-step
+    # revival draws from is the input of the layers that RAN - the residual left after the last active layer is nobody's input.  Explicit dropout seeds
+    # chosen so that at least one layer is dropped; enumerated, not sampled.
+    import random as _pyr
+    for fi in range(8 if not ctx.thorough else 32):
+        d_f, K_f, nq_f = [2, 3][fi % 2], [6, 10][(fi // 2) % 2], [3, 4][(fi // 4) % 2]
+        rcos_f = fi % 4 == 3
+        kw_f = dict(dim=d_f, num_quantizers=nq_f, codebook_size=K_f, shared_codebook=True, decay=[0.5, 0.0][fi % 2], threshold_ema_dead_code=[1, 2][(fi // 2) % 2], use_cosine_sim=rcos_f, quantize_dropout=True)
+        try:
+            frng = _pyr.Random(31 + fi)
+            rvq_f = ResidualVQ(**kw_f)
+            vqrec.set_codebook_grid(rvq_f.layers[0], frng)
+            rvq_f.train()
+            cb_f = rvq_f.layers[0]._codebook
+            seed_f = next(s_ for s_ in range(1000) if _pyr.Random(s_).randrange(0, nq_f) == fi % (nq_f - 1))      # keeps layers 0..r, r < nq - 1
+            x_f = vqrec.grid(frng, (2, 3, d_f))
+            log_f = []
+            orig_f = cb_f.forward
+
+            def wrapped_f(xin, *a, **k):
+                out_ = orig_f(xin, *a, **k)
+                log_f.append((xin.detach().double().reshape(-1, xin.shape[-1]).tolist(), out_[1].reshape(-1).tolist()))
+                return out_
+            cb_f.forward = wrapped_f
+            try:
+                state0_f = vqrec.cb_state(cb_f)
+                ret_f = rvq_f(x_f, rand_quantize_dropout_fixed_seed=seed_f)
+            finally:
+                del cb_f.forward
+            evaluations += 1
+            dist['rvq_shared_with_dropout'] = dist.get('rvq_shared_with_dropout', 0) + 1
+            n_ran = len(log_f)
+            if not (1 <= n_ran < nq_f):
+                failures.append({'key': 'rvq-shared-dropout:setup', 'what': f'ResidualVQ({kw_f}) seed {seed_f}: {n_ran} layers ran (expected fewer than {nq_f})', 'case': dict(kw=kw_f)})
+                continue
+            final_f = vqrec.cb_state(cb_f)
+            layers_f = '[' + '; '.join(f'({qmat(xs_)}, {natlist(idx_)})' for xs_, idx_ in log_f) + ']'
+            pool_f = [v_ for xs_, _ in log_f for v_ in xs_]
+            cases.append(f'shared_expire_check {qlit(TOL_E)} {qlit(TOL_S)} {c03.coq_cfg(cb_f, rcos_f)} {vqrec.coq_state(state0_f, 0)} {layers_f} {qmat(pool_f)} {vqrec.coq_state(final_f, 0)}')
+            meta.append(dict(kind='rvq-shared-dropout', kw=kw_f, step=0, head='all', mode='train'))
+            nontrivial += 1
+        except Exception as ex:
+            failures.append({'key': f'rvq-shared-dropout:exception:{type(ex).__name__}', 'what': f'ResidualVQ({kw_f}): {ex!r}'[:300], 'case': dict(kw=kw_f)})
     bad, broken = core.run_cases(ctx, 'c11', HEADER, cases, per_file=40)
     for name, out in broken:
         failures.append({'key': f'coq-eval:{name}', 'what': 'case file did not evaluate: ' + out, 'case': {'file': name}})
